@@ -123,6 +123,12 @@ CHECKS = {
         "text": "ViewTreeGen enumerates 304 560 small trees x constraints (flex: 2 directions x 6 justifications x 0..3 probe children over alignments and flex factors; container: sizes x 6x6 alignments x margins; frame/option/either/tag/dynamic decorators; 36 constraints incl. zero and one-cell extents); seeded random trees of depth <= 4 add text, scroll bar, fill, surface, image and glyph leaves, offsets up to i32::MIN/MAX, margins up to usize::MAX, flex factors 1e-9..1e9 and unbounded constraints. Each tree is built through the typed API and, when it has a JSON form, through ViewDeserializer, laid out, rendered into a sentinel-bordered sub-view (as large as the constraint, as the reported size, smaller, or a fixed window) and hit-tested at every cell in crash-isolated workers. LayoutJudge requires: no panic/error/timeout, nothing outside the surface or the root rectangle modified, root size within the constraint, every leaf painting only inside the clipped rectangle its layout node records, every cell covered by a filling leaf showing the last such leaf in render order, and find_path equal to LayoutTree!FindPath and leading to the leaf drawn there.",
         "note": "Quick tier samples 1 500 of the enumerated vectors (seeded RandomSubset) plus 6 000 random trees; thorough runs all of them plus 300 000 random trees. Exact-cell clause only on trees without anonymous painters (image, glyph, frame border, faces).",
     },
+    "C19": {
+        "level": "exploration",
+        "technique": "TLA+ syntax specifications as generators (FaceSyntax printer with syntactic variants, chord tables, Base64!Encode image documents, crop windows) and a TLA+ generator of hostile JSON documents; real (de)serialisers run per vector in crash/hang-isolated workers; TLC judge compares abstract values and decodes the serialised pixels with Base64!Decode",
+        "text": "SerdeGen enumerates 4 248 face texts (all 192 attribute sets x 4 colour settings and all 49 colour pairs x 6 attribute sets, each written canonically, reversed with upper-case hex and explicit alpha, with blanks, and with a trailing comma), 4 788 chords of 1..3 keys, 144 sizes at the 8/16/32/63/64-bit boundaries, 216 image documents in the 1/3/4-channel layouts (12 sizes incl. empty, 6 key orders, default channels) and every crop window of 4 parent images (279). The judge requires: the parser reads each text as the value the syntax spec says it denotes; Display -> FromStr and to_value/from_value (and to_string/from_str) reproduce the abstract value; the JSON form equals the printed text; image pixels equal the document's; the re-serialised data decodes (Base64!Decode) to the view's RGBA pixels in row-major order and deserialises to the same pixels; a crop of a crop serialises identically. HostileJson adds about 7 000 documents for the image, glyph, text and view deserialisers (extreme / ill-typed sizes, channels and data, repeated and missing keys, invalid base64, glyph paths / view boxes / frames, every view type x payload, flex and container fields with extreme numbers, nesting up to serde_json's limit): each must give a value or an error within 10 s without panic, and every value is laid out and rendered under 5 constraints x both glyph settings inside a sentinel canvas.",
+        "note": "Known finding: a zero-radius arc in a glyph path hangs the path parser of the dependency `rasterize`. Quick tier keeps every third face / chord vector.",
+    },
     "C09": {
         "level": "exploration",
         "technique": "TLA+ reference flow of cell sequences (Printable / NoWrap); real Text layout+render and writer adapters driven with seeded inputs inside sentinel canvases; TLC judge",
